@@ -559,7 +559,8 @@ def pydata(d, chems=None, mass=False):
     MW = chems.MW
     for i, v in enumerate(d[1]):
         if v: src.data.dct[i] = float(v) / float(MW[i]) if mass else float(v)
-    return src.by_mass()[...] if mass else src[...]
+    # what src[...] / src.by_mass()[...] return, taken without a look-up (the harness must not touch the caches)
+    return src.by_mass().data if mass else src.data
 
 def phase_source(chems, phase, vals):
     ix = env()['ix']
